@@ -1253,6 +1253,24 @@ def main(ck):
         if wf_counts["not_well_formed_but_has_node_lon"]:
             ck.corr_failures.append({"what": "a grid dataset with node_lon violates the well-formedness hypothesis "
                                              "of the theorems (c07_ds_wfb)", "count": wf_counts})
+    # ---- hypotheses of C07_any_derived_set (c07_derived_ok, c07_pairs_ok) on every dataset with node_lon:
+    #      the dataset is its three core variables plus a set S of further variables
+    dset = {"hold": 0, "fail": 0, "further_variables_histogram": {}}
+    for res in results:
+        for o in res["obs"]:
+            names = [v["name"] for v in o["snap"]]
+            if "node_lon" not in names:
+                continue
+            core = {"node_lon", "node_lat", "face_node_connectivity"}
+            derived_ok = all(names.count(n) == 1 for n in core if n in names) and core <= set(names) and not any(
+                v["name"] != "grid_topology" and any(k == "cf_role" and kind == ("s", ["mesh_topology"]) for k, kind in v["attrs"])
+                for v in o["snap"])
+            pairs_ok = ("face_lon" not in names or "face_lat" in names) and ("edge_lon" not in names or "edge_lat" in names)
+            dset["hold" if derived_ok and pairs_ok else "fail"] += 1
+            k = str(min(len(names) - 3, 20))
+            dset["further_variables_histogram"][k] = dset["further_variables_histogram"].get(k, 0) + 1
+    if dset["fail"]:
+        ck.corr_failures.append({"what": "a grid dataset violates the hypotheses of C07_any_derived_set", "count": dset})
     # ---- fresh-process reference
     sub_ok = 0
     for i, p in subs:
@@ -1291,7 +1309,7 @@ def main(ck):
                            "file": (o.get("file_faces") or [o.get("file_exc")])[0],
                            "topology": {k: norm_attr(v) for k, v in (o.get("topo") or {}).items()},
                            "stale_keys": o["stale_keys"]})
-    ck.extra.update({"distribution": hist, "model_variant_matched": variant_hits, "hypothesis_c07_ds_wfb": wf_counts,
+    ck.extra.update({"distribution": hist, "model_variant_matched": variant_hits, "hypothesis_c07_ds_wfb": wf_counts, "hypotheses_C07_any_derived_set": dset,
                      "fresh_process_references_agreeing": sub_ok, "extraction_audit_cases": audit_n,
                      "tolerances": {"corner position": "1e-9 degree (angle between unit vectors)",
                                     "exodus coord vs model dataflow": "1e-12 absolute",
